@@ -54,8 +54,9 @@ theorem LimOK.single {lm cm : Option Nat} {K n : Nat} (h : LimOK lm cm K) (hn : 
     cases cm with
     | some m => simp [overLimit, checkMaxSize]
     | none =>
-      simp only [overLimit, checkMaxSize, Option.getD_none, usizeMax]
-      rw [Bool.not_true, decide_eq_false_iff_not]; omega
+      have h : ¬ n > (none : Option Nat).getD usizeMax := by
+        simp only [Option.getD_none, usizeMax]; omega
+      simp only [overLimit, checkMaxSize, h, decide_false, Bool.not_true]
   · rw [h1]
     cases cm with
     | some m => simp [overLimit, checkMaxSize]
@@ -72,8 +73,9 @@ theorem LimOK.extend {lm cm : Option Nat} {K : Nat} (h : LimOK lm cm K) (a b : N
       | some m => rfl
       | none =>
         have := h2 rfl
-        simp only [overLimit, Option.getD_none, usizeMax]
-        symm; rw [decide_eq_false_iff_not]; omega
+        have h : ¬ a + b > (none : Option Nat).getD usizeMax := by
+          simp only [Option.getD_none, usizeMax]; omega
+        simp only [overLimit, h, decide_false]
   rw [key]
   apply decide_eq_decide.mpr
   omega
@@ -108,7 +110,7 @@ theorem setAdditional_same (w : World) (add : Frame) (hs : SmallFrame add) :
       simp only [World.setAdditionalRaw] at hf
       cases hf; exact hs
     · rw [if_neg hp]
-      exact ⟨⟨rfl, rfl, rfl, rfl, fun h f hf => h f (by rw [← hadd]; exact hf)⟩, rfl, rfl⟩
+      exact ⟨⟨rfl, rfl, rfl, rfl, fun h f hf => h f hf⟩, rfl, rfl⟩
 
 /-- how the model's reaction to a frame relates to the specification's verdict on it -/
 def StepRel (w : World) (res : World × Res (Option Message)) : Spec.FrameOut → Prop
@@ -165,21 +167,194 @@ theorem onClose_spec (w : World) (frame : Frame) (hst : w.c.state = .active)
       dsimp only
       have hrl : reason.length ≤ 123 := by
         rw [hp] at hlen; simp only [List.length_cons] at hlen; omega
+      simp only [Option.map_some]
       rw [← be16_eq, ← closeCode_allowed]
       cases hal : closeCodeIsAllowed (closeCodeOfU16 (be16 a b)) with
       | true =>
-        simp only [Option.map_some, Bool.not_true, Bool.false_eq_true, if_false, if_true]
+        simp only [Bool.not_true, Bool.false_eq_true, if_false, if_true]
         have hs : SmallFrame (Frame.close (some ⟨closeCodeOfU16 (be16 a b), reason⟩)) := by
           refine ⟨?_, rfl⟩
           simp only [Frame.close, List.length_append, beBytes2_length]; omega
         obtain ⟨h1, h2, _⟩ := setAdditional_same (w.setState .closedByPeer) _ hs
         exact ⟨rfl, ⟨h1.t, h1.codec, h1.role, h1.cfg, h1.add⟩, h2⟩
       | false =>
-        simp only [Option.map_some, Bool.not_false, if_true, Bool.false_eq_true, if_false]
+        simp only [Bool.not_false, if_true, Bool.false_eq_true, if_false]
         have hs : SmallFrame (Frame.close (some ⟨.protocol, protocolViolationReason⟩)) := by
           refine ⟨?_, rfl⟩
           simp only [Frame.close, List.length_append, beBytes2_length]; decide
         obtain ⟨h1, h2, _⟩ := setAdditional_same (w.setState .closedByPeer) _ hs
         exact ⟨rfl, ⟨h1.t, h1.codec, h1.role, h1.cfg, h1.add⟩, h2⟩
+
+theorem onPing_spec (w : World) (frame : Frame) (frag : Option Partial) (hst : w.c.state = .active)
+    (hfin : frame.header.fin = true) (hlen : ¬ frame.payload.length > 125)
+    (hfr : FragRel w.c.incomplete frag) :
+    StepRel w (w.onControl frame .ping) (.deliver (.ping frame.payload) frag) := by
+  unfold World.onControl
+  rw [hfin]
+  simp only [Bool.not_true, Bool.false_eq_true, if_false, hlen, hst, WsState.isActive, if_true]
+  have hs : SmallFrame (Frame.pong frame.payload) := ⟨by simp only [Frame.pong]; omega, rfl⟩
+  obtain ⟨h1, h2, h3⟩ := setAdditional_same w _ hs
+  refine ⟨rfl, h1, h2.trans hst, ?_⟩
+  show FragRel (w.setAdditional (Frame.pong frame.payload)).c.incomplete frag
+  rw [h3]; exact hfr
+
+theorem onPong_spec (w : World) (frame : Frame) (frag : Option Partial) (hst : w.c.state = .active)
+    (hfin : frame.header.fin = true) (hlen : ¬ frame.payload.length > 125)
+    (hfr : FragRel w.c.incomplete frag) :
+    StepRel w (w.onControl frame .pong) (.deliver (.pong frame.payload) frag) := by
+  unfold World.onControl
+  rw [hfin]
+  simp only [Bool.not_true, Bool.false_eq_true, if_false, hlen]
+  exact ⟨rfl, MsgSame.refl _, hst, hfr⟩
+
+theorem onControl_fail1 (w : World) (frame : Frame) (ctl : OpCtl) (hfin : frame.header.fin = false) :
+    StepRel w (w.onControl frame ctl) (.fail .protocol) := by
+  unfold World.onControl
+  rw [hfin]
+  exact ⟨_, rfl, rfl⟩
+
+theorem onControl_fail2 (w : World) (frame : Frame) (ctl : OpCtl) (hfin : frame.header.fin = true)
+    (hlen : frame.payload.length > 125) :
+    StepRel w (w.onControl frame ctl) (.fail .protocol) := by
+  unfold World.onControl
+  rw [hfin]
+  simp only [Bool.not_true, Bool.false_eq_true, if_false, hlen, if_true]
+  exact ⟨_, rfl, rfl⟩
+
+/-! ## data frames -/
+
+theorem incomplete_extend_over {m : Incomplete} {tail : Bytes} {cm : Option Nat}
+    (h : m.len > cm.getD usizeMax ∨ tail.length > cm.getD usizeMax - m.len) :
+    ∃ e, m.extend tail cm = (m, .err e) ∧ errClassOf e = some .capacity := by
+  unfold Incomplete.extend
+  dsimp only
+  have h' : m.len > cm.getD (2 ^ 64 - 1) ∨ tail.length > cm.getD (2 ^ 64 - 1) - m.len := h
+  rw [if_pos h']
+  exact ⟨_, rfl, rfl⟩
+
+/-- `IncompleteMessage::extend` once the size check has passed -/
+def extendOk (m : Incomplete) (tail : Bytes) : Incomplete × Res Unit :=
+  match m with
+  | .binary v => (.binary (v ++ tail), .ok ())
+  | .text s => (.text (s.extend tail).1, (s.extend tail).2)
+
+theorem incomplete_extend_under {m : Incomplete} {tail : Bytes} {cm : Option Nat}
+    (h : ¬ (m.len > cm.getD usizeMax ∨ tail.length > cm.getD usizeMax - m.len)) :
+    m.extend tail cm = extendOk m tail := by
+  unfold Incomplete.extend extendOk
+  dsimp only
+  have h' : ¬ (m.len > cm.getD (2 ^ 64 - 1) ∨ tail.length > cm.getD (2 ^ 64 - 1) - m.len) := h
+  rw [if_neg h']
+  cases m with
+  | binary v => rfl
+  | text s => rfl
+
+theorem incomplete_len {i : Incomplete} {p : Partial} (h : FragRel (some i) (some p)) :
+    i.len = p.acc.length := by
+  cases i with
+  | binary v =>
+    obtain ⟨_, h2⟩ := h
+    rw [h2]; rfl
+  | text s =>
+    obtain ⟨_, h2⟩ := h
+    exact collector_len_of_inv h2
+
+theorem frameMeaning_cont (lim : Limits) (frag : Option Partial) (fin : Bool) (p : Bytes) :
+    frameMeaning lim frag fin 0 p =
+      match frag with
+      | none => .fail .protocol
+      | some f =>
+        if overLimit (f.acc.length + p.length) lim.maxMsg then .fail .capacity
+        else
+          if f.isText then
+            if fin then (if wellFormedB (f.acc ++ p) then .deliver (.text (f.acc ++ p)) none else .fail .utf8)
+            else (if viablePrefixB (f.acc ++ p) then .continue_ (some ⟨true, f.acc ++ p⟩) else .fail .utf8)
+          else
+            if fin then .deliver (.binary (f.acc ++ p)) none else .continue_ (some ⟨false, f.acc ++ p⟩) := by
+  unfold frameMeaning
+  rw [if_neg (by omega), if_pos rfl]
+  rfl
+
+theorem collector_extend_cases {s : Collector} {seen : Bytes} (h : Collector.Inv s seen) (p : Bytes) :
+    ((s.extend p).2 = .ok () ∧ Collector.Inv (s.extend p).1 (seen ++ p)) ∨
+    ((s.extend p).2 = .err .utf8 ∧ viablePrefixB (seen ++ p) = false ∧ wellFormedB (seen ++ p) = false) := by
+  rcases Collector.extend_spec h p with ⟨h1, h2⟩ | ⟨h1, h2⟩
+  · exact Or.inl ⟨h1, h2⟩
+  · refine Or.inr ⟨h1, not_viable_of_dead h2, ?_⟩
+    cases hw : wellFormedB (seen ++ p) with
+    | false => rfl
+    | true =>
+      have := h2 []
+      rw [List.append_nil] at this
+      exact absurd ((Utf8.wellFormedB_iff _).mp hw) this
+
+theorem onContinue_spec (w : World) (frame : Frame) (lim : Limits) (frag : Option Partial) (K : Nat)
+    (hst : w.c.state = .active) (hfr : FragRel w.c.incomplete frag)
+    (hlim : LimOK lim.maxMsg w.c.cfg.maxMsg K) (hK : accLen frag + frame.payload.length ≤ K) :
+    StepRel w (w.onContinue frame) (frameMeaning lim frag frame.header.fin 0 frame.payload) := by
+  rw [frameMeaning_cont]
+  unfold World.onContinue
+  cases hi : w.c.incomplete with
+  | none =>
+    rw [hi] at hfr
+    cases frag with
+    | none => exact ⟨_, rfl, rfl⟩
+    | some f => exact hfr.elim
+  | some msg =>
+    rw [hi] at hfr
+    cases frag with
+    | none => cases msg <;> exact hfr.elim
+    | some f =>
+      dsimp only
+      have hml := incomplete_len hfr
+      have hov := hlim.extend f.acc.length frame.payload.length hK
+      by_cases hc : msg.len > w.c.cfg.maxMsg.getD usizeMax ∨
+          frame.payload.length > w.c.cfg.maxMsg.getD usizeMax - msg.len
+      · obtain ⟨e, he, hce⟩ := incomplete_extend_over hc
+        rw [he]
+        rw [hml] at hc
+        rw [hov, decide_eq_true hc]
+        exact ⟨e, rfl, hce⟩
+      · rw [incomplete_extend_under hc]
+        rw [hml] at hc
+        rw [hov, decide_eq_false hc]
+        simp only [Bool.false_eq_true, if_false]
+        cases msg with
+        | binary v =>
+          obtain ⟨h1, h2⟩ := hfr
+          rw [h1, h2]
+          simp only [Bool.false_eq_true, if_false, extendOk]
+          cases hfin : frame.header.fin with
+          | true =>
+            simp only [if_true, Incomplete.complete]
+            exact ⟨rfl, ⟨rfl, rfl, rfl, rfl, fun h => h⟩, hst, trivial⟩
+          | false =>
+            simp only [Bool.false_eq_true, if_false]
+            exact ⟨rfl, ⟨rfl, rfl, rfl, rfl, fun h => h⟩, hst, ⟨rfl, rfl⟩⟩
+        | text s =>
+          obtain ⟨h1, h2⟩ := hfr
+          rw [h1]
+          simp only [if_true, extendOk]
+          rcases collector_extend_cases h2 frame.payload with ⟨hr, hinv⟩ | ⟨hr, hnv, hnw⟩
+          · rw [hr]
+            dsimp only
+            cases hfin : frame.header.fin with
+            | true =>
+              simp only [if_true, Incomplete.complete]
+              rcases intoString_of_inv hinv with ⟨hw, hs⟩ | ⟨hw, hs⟩
+              · rw [hs, hw]
+                simp only [Res.map, if_true]
+                exact ⟨rfl, ⟨rfl, rfl, rfl, rfl, fun h => h⟩, hst, trivial⟩
+              · rw [hs, hw]
+                simp only [Res.map, Bool.false_eq_true, if_false]
+                exact ⟨_, rfl, rfl⟩
+            | false =>
+              simp only [Bool.false_eq_true, if_false, viable_of_inv hinv, if_true]
+              exact ⟨rfl, ⟨rfl, rfl, rfl, rfl, fun h => h⟩, hst, ⟨rfl, hinv⟩⟩
+          · rw [hr]
+            dsimp only
+            rw [hnv, hnw]
+            cases hfin : frame.header.fin <;>
+              simp only [Bool.false_eq_true, if_false, if_true] <;> exact ⟨_, rfl, rfl⟩
 
 end WsProofs.Read
